@@ -297,6 +297,20 @@ class Exec(object):
             if name in mod.classes:
                 return ClassRef(mod.classes[name])
         from . import builtins_ as bi
+        if mod is not None:
+            # names bound by module-level import statements
+            imp = getattr(mod, '_imports', None)
+            if imp is None:
+                imp = {}
+                for st in mod.body:
+                    if st.k == 'Import':
+                        for (m_, n_, as_) in st.f.get('names', []):
+                            imp[as_] = (m_, n_)
+                mod._imports = imp
+            if name in imp and name not in bi.MODULES:
+                v = bi.imported_name(self, imp[name][0], imp[name][1])
+                if v is not None:
+                    return v
         v = bi.global_name(self, name, mod)
         if v is not None:
             return v
